@@ -19,14 +19,14 @@ MAXLEN = 6000          # longer outputs are unjudged (TLC scans are recursive, o
 FORMATS = ("csv", "xml", "rest", "tar")
 TIERS = {
     # (cost setting, seed, number of solutions); cap = wall-clock seconds per solver
-    "quick": dict(cap=75, runs={"csv": [("test", 0, 40), ("xml-test-plain", 1, 20)],
+    "quick": dict(cap=75, runs={"csv": [("test", 0, 40), ("xml-test-plain", 1, 20), ("test-free10", 2, 30)],
                                 "xml": [("test", 0, 150), ("xml-test-plain", 1, 90)],
                                 "rest": [("test", 0, 40), ("std", 1, 20)],
                                 "tar": [("test", 0, 20), ("tar-test", 1, 12)]}),
     "thorough": dict(cap=150, runs=None),
 }
 TIERS["thorough"]["runs"] = {f: [(c, s, n) for c in cs for s in (0, 1, 2)] for f, cs, n in (
-    ("csv", ("test", "xml-test-plain", "scriptsize-test"), 120),
+    ("csv", ("test", "xml-test-plain", "scriptsize-test", "test-free10"), 120),
     ("xml", ("test", "std", "xml-test-plain"), 160),
     ("rest", ("test", "std", "scriptsize-test"), 60),
     ("tar", ("test", "tar-test", "scriptsize-test"), 50))}
